@@ -119,12 +119,21 @@ func (k *vKid) depth(level int) int {
 // one the format requires.  For every level 0..3 the hash and depth computed by newImmutableCell equal
 // the specification, the depth limit is enforced exactly, and Cell.Hash / Hasher (cold, warm) agree.
 func VH_C02_hash_step(ctype int, m1 int, m2 int) {
+	vHashStep(ctype, []int{m1, m2})
+}
+
+// the same step for cells with three or four children and for library cells (type 2, no children)
+func VH_C02_hash_step4(ctype int, m1 int, m2 int, m3 int, m4 int) {
+	vHashStep(ctype, []int{m1, m2, m3, m4})
+}
+
+func vHashStep(ctype int, masks []int) {
 	var kids []*vKid
-	if m1 >= 0 {
-		kids = append(kids, vMakeKid("k1", m1))
-	}
-	if m2 >= 0 {
-		kids = append(kids, vMakeKid("k2", m2))
+	names := []string{"k1", "k2", "k3", "k4"}
+	for i, m := range masks {
+		if m >= 0 {
+			kids = append(kids, vMakeKid(names[i], m))
+		}
 	}
 	or := 0
 	for _, k := range kids {
